@@ -25,7 +25,9 @@ RULE = (
     "accepted one every slot is None / empty default or an instance of the declared type, list elements included "
     "(observe.assert_typed), (4) named conversions: naive timestamp => same wall clock at UTC offset 0, bytes => text whose "
     "surrogate-escaped UTF-8 encoding is the input; plain value identity for integers / bytes / text, (5) at the end of the "
-    "history RecordPacker().pack(record) succeeds and what it decodes to is typed again.  A case is non-trivial when at least one "
+    "history RecordPacker().pack(record) succeeds and what it decodes to is typed again.  The thorough tier additionally runs the "
+    "repository's own test-suite with the typed-slot invariant installed as a post-condition of every record construction "
+    "(verif/suite_plugin.py; ~37 000 constructions by users, _replace and every reader).  A case is non-trivial when at least one "
     "operation ran; distinct = distinct (type, operation kind, candidate kind, candidate)."
 )
 ASSUMPTIONS = [
